@@ -80,7 +80,18 @@ inline mj::Value node(const char* t, const std::string& s) {
   v.set("n", mj::Value::mkInt(0));
   v.set("b", mj::Value::mkBool(false));
   v.set("q", mj::Value::mkStr(""));
+  v.set("k", mj::Value::mkBool(false));  // JsonString::isLinked(), strings only
   return v;
+}
+
+// forgets what isLinked() reported (runs in which every string argument is forced to one kind, whatever
+// storage the specification's value asked for)
+inline void dropStorage(mj::Value& v) {
+  for (auto& e : v.a) dropStorage(e);
+  for (auto& kv : v.o) {
+    if (kv.first == "k" && kv.second.type == mj::Value::Bool) kv.second.b = false;
+    else dropStorage(kv.second);
+  }
 }
 
 inline void setBad(mj::Value& v, const std::string& why) {
@@ -167,6 +178,7 @@ inline mj::Value project(JsonVariantConst v, int depth) {
     JsonString s = v.as<JsonString>();
     out = node("s", s.c_str() ? tokEncode(s.c_str(), s.size()) : std::string("<null>"));
     kinds++;
+    out.set("k", mj::Value::mkBool(s.isLinked()));
     if (!(v.is<const char*>() && v.is<JsonString>() && v.is<std::string>()))
       setBad(out, "is<string kinds> disagree");
     if (s.c_str() && s.c_str()[s.size()] != 0) setBad(out, "string not NUL-terminated at size()");
